@@ -30,6 +30,7 @@ PROPS = {
     "C06": "vf.harness.C06",
     "C07": "vf.harness.C07",
     "C08": "vf.harness.C08",
+    "C13": "vf.harness.C13",
 }
 
 
